@@ -15,12 +15,18 @@
 (***************************************************************************)
 EXTENDS Common, TLC
 
-CONSTANTS MaxLen
+CONSTANTS MaxLen,
+          ArrayNs       \* the const parameters N for which array_chunks::<_, N> is instantiated in the harness
 
 \* sizes standing for isize::MAX, isize::MAX + 1, usize::MAX - 1, usize::MAX (the harness maps a model
 \* value v >= 100 to the real value with the same distance from its anchor, DESIGN §3-2).  Every size
 \* larger than the slice behaves alike in R, so the choice of the four values only matters to the code.
 BigNs == {127, 128, 254, 255}
+\* slices of a zero-sized element type may be longer than isize::MAX: lengths 128 and 255 stand for
+\* isize::MAX + 1 and usize::MAX elements (every len >= 100 denotes such a slice; only a few steps are taken)
+ZstLens   == {128, 255}
+ZstNs     == {1, 2, 3, 4, 127, 128, 129, 254, 255}
+ZstDepth  == 3
 
 Kinds == {"iter", "copied", "windows", "chunks", "rchunks", "chunks_exact", "rchunks_exact", "array_chunks"}
 ExactKinds == {"chunks_exact", "rchunks_exact", "array_chunks"}
@@ -51,9 +57,11 @@ StdRemainder(k, l, sz) ==
 -----------------------------------------------------------------------------
 (* M *)
 Init ==
-    /\ kind \in Kinds /\ len \in 0..MaxLen /\ n \in 1..(MaxLen + 1) \cup BigNs
+    /\ kind \in Kinds
+    /\ \/ len \in 0..MaxLen /\ n \in 1..(MaxLen + 1) \cup BigNs
+       \/ len \in ZstLens /\ n \in ZstNs
     /\ (kind \in {"iter", "copied"} => n = 1)
-    /\ (kind = "array_chunks" => n <= MaxLen + 1)
+    /\ (kind = "array_chunks" => n <= MaxLen + 1 /\ n \in ArrayNs)
     /\ fwd = TRUE /\ hist = <<>>
     /\ CASE kind = "chunks_exact" \/ kind = "array_chunks" ->
               \* let at = len - len % n; (slice, rem) = split_at(slice, at)   |  as_chunks
@@ -117,7 +125,9 @@ NextBack  == Take(DoNextBack, "next_back")
 Rev       == /\ fwd' = ~fwd /\ hist' = Append(hist, "rev")
              /\ UNCHANGED <<kind, len, n, lo, hi, live, rlo, rhi>>
 
-Next == Next_ \/ NextBack \/ Rev
+\* huge (zero-sized element) slices: only ZstDepth steps from the initial state
+Shallow == len < 100 \/ Len(hist) < ZstDepth
+Next == Shallow /\ (Next_ \/ NextBack \/ Rev)
 Spec == Init /\ [][Next]_vars
 
 -----------------------------------------------------------------------------
